@@ -82,7 +82,7 @@ def ctor_alloc_relation(ck, owners, rule):
             if tu.meta[fn].get("element"):
                 assumed_alignment(sm, f0)
             ck.eq(rule + "-ctor-bytes", fn, "bytes requested for the %s block == %s" % (o.kind, "memory_consumption()" if o.kind == "data" else "8*capacity()"),
-                  e.args[1], want, f0)
+                  e.args[1], want, f0, imprecise_undecided=True)
             if tu.ak.stateful and not tu.ak.always_equal:
                 ck.eq(rule + "-ctor-alloc", fn, "allocator used for the %s block == get_allocator()" % o.kind, e.args[0], tu.obs(fn, "post", "id"), Facts())
 
@@ -219,8 +219,47 @@ def check_witness(ck, owners, fn, objs, rule, exits=("ret",)):
         rec.count("ownership_cases", ncases)
 
 
+def _imprecise(d, f=None):
+    """the difference still contains shift / mask / division atoms (or unresolved joins over them) that the linear
+    reasoning treats as opaque: a failed equality is then undecided, not a violation"""
+    if f is not None:
+        d = simplify(d, f)
+    bad = []
+
+    def fn(a):
+        if a[0] in ("lshr", "ashr", "and", "udiv", "urem", "or", "xor", "unk"):
+            bad.append(a)
+    walk_atoms(d, fn)
+    return bad
+
+
+def _eq0(f, d):
+    """d == 0 under f - also when d contains γ-joins whose conditions f does not decide (both sides built from the
+    same condition: 'one more unit when there is a remainder')"""
+    if d.is_const():
+        return d.c == 0
+    if f.is_zero(d):
+        return True
+    n = 0
+    for g in case_split([d], f, max_cases=16):
+        if g.infeasible():
+            continue
+        n += 1
+        d2 = simplify(d, g)
+        if not ((d2.is_const() and d2.c == 0) or g.is_zero(d2)):
+            return False
+    return n > 0
+
+
 def _check_case(ck, owners, fn, objs, rule, sm, f, olds, finals, ev_alloc, ev_dealloc, xkind):
     tu, rec = ck.tu, ck.rec
+    # re-simplify the case's literals under all of them (a literal chosen early may mention a γ that a later
+    # literal resolves; event guards are simplified under the full case and must meet the same spelling)
+    from .rules_cmp import refresh
+    f2 = refresh(f)
+    f2.saturate()
+    if not f2.infeasible():
+        f = f2
     S = lambda t: simplify(t, f)
     key0 = fn.replace("w_", "") + ("" if xkind == "ret" else ":" + xkind)
     happens = lambda e: f.eval(simplify_cond(e.guard, f))
@@ -268,10 +307,10 @@ def _check_case(ck, owners, fn, objs, rule, sm, f, olds, finals, ev_alloc, ev_de
             continue
         blk["state"] = "released"
         okb = (nbytes - blk["bytes"])
-        okb = okb.is_const() and okb.c == 0 or f.is_zero(okb)
+        okb = _eq0(f, okb)
         rec.ob(rule + "-M2", bool(okb), {"config": tu.cfg, "witness": fn, "obligation": "DEALLOC size == requested size", "block": blk["origin"]})
         if not okb:
-            if has_unknown(nbytes - blk["bytes"]):
+            if has_unknown(nbytes - blk["bytes"]) or _imprecise(nbytes - blk["bytes"], f):
                 rec.broken("%s %s %s: deallocation size undecided: %s vs %s" % (tu.cfg, rule, fn, show(nbytes), show(blk["bytes"])))
                 return
             rec.finding(rule + "-M2", "%s:dealloc-size-%s-in-%s[%s]" % (key0, blk["origin"], where.split("@")[0], ck.catkey()),
@@ -279,7 +318,7 @@ def _check_case(ck, owners, fn, objs, rule, sm, f, olds, finals, ev_alloc, ev_de
                             fn, show(p), blk["origin"], show(blk["bytes"]), show(nbytes), tu.where(sm, e)), config=tu.cfg)
         if tu.ak.stateful and not tu.ak.always_equal:
             d = idt - blk["id"]
-            oki = (d.is_const() and d.c == 0) or f.is_zero(d)
+            oki = _eq0(f, d)
             rec.ob(rule + "-M2id", bool(oki), {"config": tu.cfg, "witness": fn, "obligation": "DEALLOC through the allocating allocator (or an equal one)", "block": blk["origin"]})
             if not oki:
                 if has_unknown(d):
@@ -337,10 +376,10 @@ def _check_case(ck, owners, fn, objs, rule, sm, f, olds, finals, ev_alloc, ev_de
         if post is not None and xkind == "ret":
             want_bytes = tu.obs(fn, post, "mc") if o.kind == "data" else tu.obs(fn, post, "cap").scale(8)
             d = S(want_bytes) - blk["bytes"]
-            okb = (d.is_const() and d.c == 0) or f.is_zero(d)
+            okb = _eq0(f, d)
             rec.ob(rule + "-I5", bool(okb), {"config": tu.cfg, "witness": fn, "obligation": "size bookkeeping == bytes of the owned %s block" % o.kind})
             if not okb:
-                if has_unknown(d):
+                if has_unknown(d) or _imprecise(d, f):
                     rec.broken("%s %s %s: bookkeeping size undecided: %s" % (tu.cfg, rule, fn, show(d)))
                     return
                 rec.finding(rule + "-I5", "%s:size-bookkeeping-%s.%s-from-%s[%s]" % (key0, arg, o.kind, blk["origin"], ck.catkey()),
@@ -349,7 +388,7 @@ def _check_case(ck, owners, fn, objs, rule, sm, f, olds, finals, ev_alloc, ev_de
                                 " && ".join(show_cond(c) for c in f.raw[-4:])[:200]), config=tu.cfg)
             if tu.ak.stateful and not tu.ak.always_equal:
                 d = S(tu.obs(fn, post, "id")) - blk["id"]
-                oki = (d.is_const() and d.c == 0) or f.is_zero(d)
+                oki = _eq0(f, d)
                 rec.ob(rule + "-Q2", bool(oki), {"config": tu.cfg, "witness": fn, "obligation": "owned block was allocated by (an allocator equal to) get_allocator()"})
                 if not oki:
                     if has_unknown(d):
